@@ -82,6 +82,10 @@ type Engine struct {
 	prevOK   map[uint64]bool // reads that were made and right at the previous check
 }
 
+// opDeadline bounds one Store / RevertHead (hang detection). Generous: up to 14 histories and as many
+// driver processes share the machine, a slow box must not look like a hang.
+const opDeadline = 20 * time.Minute
+
 var versions = []string{"0.13.2", "0.13.4", "0.14.0", "0.14.1"}
 
 func NewEngine(cfg Config, r *lib.RNG, driverPath, scratch string, res *lib.Result) (*Engine, error) {
@@ -166,6 +170,16 @@ func (e *Engine) fail(f Failure) {
 
 func (e *Engine) Height() int { return e.g.Height() }
 
+// fatal reports a failure of the harness machinery (never green, CONVENTIONS §8).
+func (e *Engine) fatal(format string, a ...any) {
+	msg := fmt.Sprintf(format, a...)
+	if e.res != nil {
+		e.res.Fatalf("scenario %s: %s", e.cfg.Name, msg)
+		return
+	}
+	e.fail(Failure{Sig: "harness-fatal", What: msg})
+}
+
 func (e *Engine) ask(line string) (string, bool) {
 	if e.drv == nil {
 		return "", false
@@ -174,7 +188,7 @@ func (e *Engine) ask(line string) (string, bool) {
 	if err != nil {
 		e.broken = "driver: " + err.Error()
 		e.drv = nil
-		e.fail(Failure{Sig: "driver-died", What: err.Error()})
+		e.fatal("Lean driver died: %v", err)
 		return "", false
 	}
 	return ans, true
@@ -256,7 +270,7 @@ func (e *Engine) Store(d *Desc) {
 	e.shadowStore(prev, d.Diff)
 	for _, n := range e.nodes[1:] {
 		var serr error
-		done := lib.WithDeadline(120*time.Second, func() {
+		done := lib.WithDeadline(opDeadline, func() {
 			var pan bool
 			var stack string
 			serr, pan, stack = lib.Try(func() error { return lib.StoreOn(n.bc, b) })
@@ -265,7 +279,7 @@ func (e *Engine) Store(d *Desc) {
 			}
 		})
 		if !done {
-			serr = errors.New("Store did not return within 120 s")
+			serr = fmt.Errorf("Store did not return within %s", opDeadline)
 		}
 		if serr != nil {
 			e.broken = n.name + " store: " + serr.Error()
@@ -310,7 +324,7 @@ func (e *Engine) Revert() {
 	head := e.g.Head()
 	for i, n := range e.nodes {
 		var rerr error
-		done := lib.WithDeadline(120*time.Second, func() {
+		done := lib.WithDeadline(opDeadline, func() {
 			var pan bool
 			var stack string
 			rerr, pan, stack = lib.Try(func() error {
@@ -324,9 +338,9 @@ func (e *Engine) Revert() {
 			}
 		})
 		if !done {
-			rerr = errors.New("RevertHead did not return within 120 s")
+			rerr = fmt.Errorf("RevertHead did not return within %s", opDeadline)
 		}
-		if rerr != nil && e.emptied && n.kind == "legacy" {
+		if rerr != nil && e.emptied && n.kind == "legacy" && strings.Contains(rerr.Error(), "does not match the expected root: 0x") {
 			// not a read problem and not reported here: after a block that left a system contract
 			// with an empty storage, the legacy backend cannot revert any more (purgesystemContracts
 			// removes the contract and the root check fails) -- C04's subject
@@ -395,6 +409,7 @@ var (
 	leafFixVal  bool
 	sysProbeVal bool
 	histOrdVal  bool
+	probeErr    error // a probe that could not run: Fatal in main
 )
 
 // probeVariant probes the real code once: which variant of the new backend is in the tree (the Lean
@@ -408,31 +423,51 @@ func probeVariant() (leafFix, sysProbeFix, histOrderFix bool) {
 			for _, line := range lines {
 				d, err := decodeDiff("0.13.2", line)
 				if err != nil {
+					probeErr = fmt.Errorf("probe diff %q: %w", line, err)
 					return nil
 				}
 				if _, err := g.Next(&lib.BlockSpec{Version: d.Version, Diff: d.Diff, Classes: d.Classes, NoTxs: true}); err != nil {
+					probeErr = fmt.Errorf("probe block %q: %w", line, err)
 					return nil
 				}
 			}
 			return g
 		}
 		if g := run([]string{"sa 104 sk 2 1 d 104 c000", "sa 104 sk 3 4", "sa 104 sk 3 0"}); g != nil {
-			if r, _, err := g.Src.HeadState(); err == nil {
-				v, err := r.ContractStorage(lib.F(0x104), lib.F(3))
-				leafFixVal = err == nil && v.IsZero()
+			r, _, err := g.Src.HeadState()
+			if err != nil {
+				probeErr = fmt.Errorf("leafFix probe: %w", err)
+				return
 			}
+			v, err := r.ContractStorage(lib.F(0x104), lib.F(3))
+			if err != nil {
+				probeErr = fmt.Errorf("leafFix probe: %w", err)
+				return
+			}
+			leafFixVal = v.IsZero()
 		}
 		if g := run([]string{"sa 1 sk 2 5", "sa 1 sk 2 0"}); g != nil {
-			if r, _, err := g.Src.StateAtBlockNumber(0); err == nil {
-				v, err := r.ContractStorage(lib.F(1), lib.F(2))
-				sysProbeVal = err == nil && v.Equal(lib.F(5))
+			r, _, err := g.Src.StateAtBlockNumber(0)
+			if err != nil {
+				probeErr = fmt.Errorf("sysProbeFix probe: %w", err)
+				return
 			}
+			// as found this read answers key-not-found (the defect), repaired it answers 5
+			v, err := r.ContractStorage(lib.F(1), lib.F(2))
+			sysProbeVal = err == nil && v.Equal(lib.F(5))
 		}
 		if g := run([]string{"d 104 c000", "d 106 c000 r 106 c003"}); g != nil {
-			if r, _, err := g.Src.StateAtBlockNumber(1); err == nil {
-				v, err := r.ContractClassHash(lib.F(0x106))
-				histOrdVal = err == nil && v.Equal(lib.F(0xc003))
+			r, _, err := g.Src.StateAtBlockNumber(1)
+			if err != nil {
+				probeErr = fmt.Errorf("histOrderFix probe: %w", err)
+				return
 			}
+			v, err := r.ContractClassHash(lib.F(0x106))
+			if err != nil {
+				probeErr = fmt.Errorf("histOrderFix probe: %w", err)
+				return
+			}
+			histOrdVal = v.Equal(lib.F(0xc003))
 		}
 	})
 	return leafFixVal, sysProbeVal, histOrdVal
